@@ -129,13 +129,17 @@ func c17Scenarios(tier string) []*core.Scenario {
 	prelude := []string{"; header comment", `[INSTRSET "i486p"]`, "X EQU 5", "EXTERN ext1", "Y EQU X+1"}
 	scs = append(scs, &core.Scenario{
 		Name: "directive_position", Bound: -1,
-		Rule:   "[BITS 32] (or [BITS 16], or none) at every position of a 5-statement prelude before the first instruction x 10 instruction groups: the output must equal the group assembled directly under that mode; default (no directive) must equal [BITS 16]",
+		Rule:   "[BITS 32] (or [BITS 16], or none) at every position of a 5-statement prelude before the first instruction x 18 instruction groups x {flat binary, WCOFF object (.text compared)}: the output must equal the group assembled directly under that mode; default (no directive) must equal [BITS 16]",
 		Bounds: map[string]any{"prelude": prelude, "positions": len(prelude) + 1},
 		Build: func(c *core.Chooser) *core.Case {
 			g := c.Pick("group", len(c17Groups))
 			m := []int{32, 16, 0}[c.Pick("mode", 3)]
 			pos := c.Pick("pos", len(prelude)+1)
+			coff := c.Bool("wcoff") // the same program as a WCOFF object: the .text sections are compared
 			var sb strings.Builder
+			if coff {
+				sb.WriteString("[FORMAT \"WCOFF\"]\n")
+			}
 			for i := 0; i <= len(prelude); i++ {
 				if i == pos {
 					sb.WriteString(bitsLine(m))
@@ -151,15 +155,33 @@ func c17Scenarios(tier string) []*core.Scenario {
 				eff = 16
 			}
 			ref := bitsLine(eff) + c17Body(c17Groups[g]) + tail
+			if coff {
+				ref = "[FORMAT \"WCOFF\"]\n" + ref
+			}
 			return &core.Case{
-				Key:       fmt.Sprintf("BITS %d at %d|group=%d", m, pos, g),
-				Feat:      feat("mode", fmt.Sprint(m), "pos", fmt.Sprint(pos), "group", fmt.Sprint(g)),
+				Key:       fmt.Sprintf("BITS %d at %d|group=%d", m, pos, g) + map[bool]string{true: "|WCOFF", false: ""}[coff],
+				Feat:      feat("mode", fmt.Sprint(m), "pos", fmt.Sprint(pos), "group", fmt.Sprint(g), "wcoff", fmt.Sprint(coff)),
 				FreshRefs: true, Srcs: []string{sb.String(), ref},
-				Judge: func(rs []*core.Result) core.Verdict {
+				Judge: func(rs0 []*core.Result) core.Verdict {
 					v := core.Verdict{}
-					if core.ReportsError(rs[0], nil) || core.ReportsError(rs[1], nil) {
+					if core.ReportsError(rs0[0], nil) || core.ReportsError(rs0[1], nil) {
 						v.Outcome = "diagnosed"
 						return v
+					}
+					rs := rs0
+					if coff {
+						rs = make([]*core.Result, len(rs0))
+						for i, r := range rs0 {
+							x := *r
+							f := parseCOFF(r.Out)
+							if core.HardFailure(r) || len(f.Problems) > 0 || len(f.Sections) < 1 {
+								v.Outcome = "bad_object"
+								v.Fails = []core.Fail{{Facet: "mode_scope", Dev: "object_unreadable", Detail: strings.Join(f.Problems, "; ") + errSummary(r)}}
+								return v
+							}
+							x.Out = f.sectionData(r.Out, 0)
+							rs[i] = &x
+						}
 					}
 					v.Outcome = "assembled"
 					v.Nontrivial = len(rs[0].Out) > 0
